@@ -461,6 +461,38 @@ func Walk(e Expr, f func(Expr)) {
 }
 
 // HasCall reports whether e contains a call to one of names.
+// notNodeSet reports whether e is statically something other than a node-set.
+func notNodeSet(e Expr) bool {
+	switch x := e.(type) {
+	case *Str, *Num, *Neg:
+		return true
+	case *Bin:
+		return x.Op != "|"
+	case *Call:
+		return x.Name != "reverse"
+	case *Group:
+		return notNodeSet(x.X)
+	case *Filter:
+		return notNodeSet(x.Primary)
+	case *Path:
+		return x.Start != nil && notNodeSet(x.Start)
+	}
+	return false
+}
+
+// IllTypedUnion reports whether e holds a '|' one of whose operands is statically not a
+// node-set ('a' | b, 1.5 | //b, count(a) | b): valid by the grammar, a type error by the
+// rest of the recommendation, which an implementation may reject when it compiles.
+func IllTypedUnion(e Expr) bool {
+	found := false
+	Walk(e, func(x Expr) {
+		if b, ok := x.(*Bin); ok && b.Op == "|" && (notNodeSet(b.L) || notNodeSet(b.R)) {
+			found = true
+		}
+	})
+	return found
+}
+
 func HasCall(e Expr, names ...string) bool {
 	found := false
 	Walk(e, func(x Expr) {
